@@ -895,7 +895,7 @@ def drive(ctx, prop, weights, n_hist, max_ops, modes=('A', 'B')):
                 r = run_history(do_cache, mode, c['ops'], prop)
                 runs.append((r, do_cache, mode, 'corpus:' + c['name']))
                 if r.fails:
-                    report_fails(ctx, prop, r, do_cache, mode, c['ops'], shrink_it=False)
+                    report_fails(ctx, prop, r, do_cache, mode, c['ops'])
     for i in range(n_hist):
         do_cache = rng.random() < 0.6
         mode = modes[i % len(modes)]
